@@ -71,7 +71,17 @@ def gen_template(r, depth, env):
             src.append("{% " + "; ".join(map(str, vals)) + " %}"); val.append(str(vals[-1]))
         elif k < 0.9 and depth > 0:
             s2, v2 = gen_template(r, depth - 1, env)
-            src.append("{" + s2 + "}"); val.append(v2)
+            if r.random() < 0.3:
+                # a statement block inside a hole that evaluates a nested template (with holes of its own): the block contributes
+                # nothing, the nested text shows up where the variable is used
+                tv = "tq" + str(depth)
+                blk = r.choice(["if 1 { %s = %s }", "if 0 { 1 } else { %s = %s }", "i9 = 0; while i9 < 1 { i9 = i9 + 1; %s = %s }"]) % (tv, s2)
+                src.append("{% " + blk + " %}"); val.append("")
+                seg = rand_text(r, 3).replace(q, "")
+                src.append(py_escape(q, seg)); val.append(seg)
+                src.append("{" + tv + "}"); val.append(v2)
+            else:
+                src.append("{" + s2 + "}"); val.append(v2)
         else:
             t = rand_text(r, 4).replace("'", "").replace("\\", "")
             src.append("{'" + t.replace("\n", "\\n").replace("\r", "\\r").replace("\t", "\\t").replace("\x0c", "\\f") + "'}")
@@ -161,6 +171,9 @@ def main(tier):
                       (f"ys=[5]; xs=[ys,7]; {q}{{xs}}{{ys}}{{xs}}{q}", "[[5], 7][5][[5], 7]", "", None),
                       (f"xs=[1]; {q}a{{xs}}{q} + {q}b{{xs}}{q}", "a[1]b[1]", "", None), (f"xs=[1]; {q}{{ {q}{{xs}}{q} }}{{xs}}{q}", "[1][1]", "", None),
                       (f"xs=[]; {q}{{xs}}{{xs}}{{ {{}} }}{{ {{}} }}{q}", "[][]{}{}", "", None)]
+        progs += [("`a{% if 1 { x = `b{1}` } %}c{x}`", "acb1", "", None), ("`a{% if 1 { x = `b{1}` }; 5 %}c`", "a5c", "", None),
+                  ("`{% if 0 { 1 } %}|{% if 1 { y = `{2}` } %}|{y}`", "||2", "", None), ("`<{% i=0; while i<2 { i=i+1; z=`{i}` } %}>{z}`", "<>2", "", None),
+                  ("`{% if 1 { `{1}` } %}{% if 1 { 2 } %}`", "", "", None), ("`{ `{ `{1}` }` }{% if 1 { 3 } %}`", "1", "", None)]
         lines = [f"runseq L100000 - {hx(src)}" + (f" {hx(check[2:])}" if check else "") for src, val, check, we in progs]
         out = run.go_only("templates", lines, go_timeout=300)
         for (src, val, check, we), (ln, g) in zip(progs, out):
@@ -174,6 +187,26 @@ def main(tier):
                 m2 = re.match(r"ok (\[[^\]]*\]) ", parts[1]) if len(parts) > 1 else None
                 if not m2 or m2.group(1) != we:
                     run.violation("template-assignment-not-visible", {"source": src, "expected_vars": we, "implementation": parts[1][:200] if len(parts) > 1 else g})
+        # a result the host keeps (the object Run handed out, also stored as a variable) is not disturbed by assembling later templates
+        # on the same VM — "a template does not disturb a value it only reads"
+        kl = []
+        for _ in range(60 if tier == "thorough" else 20):
+            env = {}
+            s1, v1 = gen_template(r, 1, env)
+            s2, v2 = gen_template(r, 1, env)
+            kl.append(f"retkeep L100000 - {hx(s1)} {hx('`<{kept}|' + '`' + ' + ' + s2)} attr")
+            kl.append(f"retkeep L100000 - {hx(s1)} {hx(s2)}")
+        for ln, g in run.go_only("retkeep", kl, go_timeout=120):
+            m = re.match(r"before=(\S+) after=(\S+) var=(\S+) \| ", g)
+            if not m:
+                run.count("retkeep.other")
+                continue
+            run.nontriv(("retkeep", ln))
+            if m.group(1) != m.group(2) or (m.group(3) != "-" and m.group(3) != m.group(1)):
+                t = ln.split()
+                run.violation("kept-result-changed-by-a-later-template", {"first": unhx(t[3]).decode("utf-8", "replace"), "second": unhx(t[4]).decode("utf-8", "replace"),
+                                                                          "kept_before": unhx(m.group(1)).decode("utf-8", "replace"),
+                                                                          "kept_after": unhx(m.group(2)).decode("utf-8", "replace"), "implementation": g[:300]})
         # nesting beyond the limit must be an error, not a crash (C01/C07 decide the crash; here: no wrong value)
         s, v = nested(23)
         out = run.go_only("templates-deep", [f"runseq L100000 - {hx(s)}"])
